@@ -241,6 +241,7 @@ def enum_types(q):
 ENUM_CALLS = [(r'^operator!=\|.*__normal_iterator<const std::pair<', '({0} != {1})'),
               (r'^operator\+\+\|.*__normal_iterator<const std::pair<', '(++{0})'),
               (r'^operator\*\|.*__normal_iterator<const std::pair<', '(*{0})'),
+              (r'^operator->\|.*__normal_iterator<const std::pair<', '{0}'),
               (r'^operator==\|bool \(__type_identity_t<basic_string_view<char', 'nv_sv_eq({0}, {1})'),
               (r'^operator==\|bool \(basic_string_view<char', 'nv_sv_eq({0}, {1})'),
               (r'^ctor\|[^|]*basic_string_view<char[^|]*\|void \(const char \*\)', 'nv_sv_from_cstr({0})'),
